@@ -1137,6 +1137,10 @@ impl<'a> Th<'a> {
                 self.op_lockstep(*needle, cfgs, hays, *iter, inert_at)
             }
             Op::Cost { f, hay, needle, cfg } => self.op_cost(*f, *hay, *needle, cfg.as_ref()),
+            Op::Refill { buf } => {
+                crate::ARENA.write().unwrap().refill(*buf, self.bytes(*buf));
+                Out::new("refill", Res::Unit)
+            }
         }
     }
 
